@@ -177,6 +177,9 @@ func (t *tr) expr(e ast.Expr) string {
 			return "(" + o + ".div " + a + " " + b + ")"
 		case token.SHL:
 			return "(" + o + ".shl " + a + " " + b + ")"
+		case token.AND:
+			// bitwise and of two non-negative bit masks
+			return "(I64.land " + a + " " + b + ")"
 		case token.LSS:
 			return "(decide (" + a + " < " + b + "))"
 		case token.LEQ:
